@@ -3,6 +3,8 @@ pub mod oneshot {
     use super::*;
     pub struct Sender<T> { pub p: core::marker::PhantomData<T> }
     pub struct Receiver<T> { pub p: core::marker::PhantomData<T> }
+    #[verifier::external_body]
+    pub fn channel<T>() -> (r: (Sender<T>, Receiver<T>)) { unimplemented!() }
     impl<T> Sender<T> {
         /// Prophecy: the unique value ever sent on this sender (`send` consumes `self`).
         pub uninterp spec fn fate(&self) -> Option<T>;
